@@ -554,21 +554,29 @@ func c14Order(r *core.Report) {
 					}
 					return true
 				})
-				// the last return compares i-index < j-index
-				var last *ast.ReturnStmt
+				// some return compares index(i) < index(j) (in either spelling) and none compares them the other way round
+				asc, desc := false, false
 				for _, rn := range lg.Returns() {
 					rs := rn.Ast.(*ast.ReturnStmt)
-					if last == nil || rs.Pos() > last.Pos() {
-						last = rs
+					if len(rs.Results) != 1 {
+						continue
+					}
+					be, ok := core.Unparen(rs.Results[0]).(*ast.BinaryExpr)
+					if !ok {
+						continue
+					}
+					xI, xJ := fromI[core.ObjOf(li, be.X)], fromJ[core.ObjOf(li, be.X)]
+					yI, yJ := fromI[core.ObjOf(li, be.Y)], fromJ[core.ObjOf(li, be.Y)]
+					switch {
+					case (be.Op == token.LSS && xI && yJ) || (be.Op == token.GTR && xJ && yI):
+						asc = true
+					case (be.Op == token.GTR && xI && yJ) || (be.Op == token.LSS && xJ && yI),
+						(be.Op == token.LEQ || be.Op == token.GEQ) && ((xI && yJ) || (xJ && yI)):
+						desc = true
 					}
 				}
-				if last != nil && len(last.Results) == 1 {
-					if be, ok := core.Unparen(last.Results[0]).(*ast.BinaryExpr); ok {
-						// index(i) < index(j), in either spelling
-						if (be.Op == token.LSS && fromI[core.ObjOf(li, be.X)] && fromJ[core.ObjOf(li, be.Y)]) || (be.Op == token.GTR && fromJ[core.ObjOf(li, be.X)] && fromI[core.ObjOf(li, be.Y)]) {
-							okCmp = true
-						}
-					}
+				if asc && !desc {
+					okCmp = true
 				}
 			}
 		}
